@@ -9,6 +9,9 @@
   of the exponent type) is proved sufficient, so the loops terminate and never hit the fuel error.
 -/
 import NB.Lemmas.Pow
+import NB.Lemmas.PowD
+import NB.Model.AsmParams
+import NB.Drv.C12
 namespace NB
 open NB.Pow NB.IntVal
 
@@ -162,5 +165,143 @@ example : bigintPow .rv (-3) 5 = .ok (-243) := by decide
 example : bigintPowBig .vv (-1) (2 ^ 128 + 1) = .ok (-1) := by
   rw [bigint_pow_big_spec, if_neg (by decide), Odd.neg_one_pow ⟨2 ^ 127, by norm_num⟩]
 example : powBig .rr 2 (2 ^ 128) = .error .capacity := by rw [pow_big_spec]; simp
+
+/-! ## Digit-level layer (NB.Model.PowD; this is what the driver's model column runs)
+
+  `PowD.*` mirrors `pow_impl!`, `Pow<&BigUint>`, `powsign` and the BigInt `pow_impl!` on digit vectors /
+  BigInt records: `&base * &base` is `Mul.mulRef`, `acc *= &base` is `Mul.mulAssign` (C02's digit-level
+  multiplication, all regimes), BigUint exponents are digit vectors narrowed through the models of
+  `to_u64` / `to_u128` (C08), `is_one` / `is_zero` / `is_odd` look at the digits, and every operator panic
+  is propagated.  The `…D_refines` theorems say that on canonical inputs it computes exactly what the
+  value-level model computes on the values (outcome for outcome), so `pow_spec` etc. transfer.
+  Only extra hypothesis: `P.ValidMul` (obligation `gen_params_valid_mul`, C02). -/
+
+/-- the squaring phase at digit level refines the value-level phase, every fuel -/
+theorem pow_sq_phaseD_refines (P : Params) (hP : P.ValidMul) (fuel : Nat) (base : List Nat) (exp : Nat)
+    (hb : Canon base) :
+    PowD.sqLoop P fuel base exp = (sqLoop fuel (val base) exp).map (fun p => (ofNat p.1, p.2)) := by
+  obtain ⟨x, rfl⟩ : ∃ x, base = ofNat x := ⟨_, canon_eq_ofNat hb⟩
+  simp only [ofNat_val]
+  exact PowD.sqLoop_refines P hP fuel x exp
+
+/-- the accumulate phase at digit level refines the value-level phase, every fuel -/
+theorem pow_acc_phaseD_refines (P : Params) (hP : P.ValidMul) (fuel : Nat) (base : List Nat) (exp : Nat)
+    (acc : List Nat) (hb : Canon base) (ha : Canon acc) :
+    PowD.accLoop P fuel base exp acc = (accLoop fuel (val base) exp (val acc)).map ofNat := by
+  obtain ⟨x, rfl⟩ : ∃ x, base = ofNat x := ⟨_, canon_eq_ofNat hb⟩
+  obtain ⟨y, rfl⟩ : ∃ y, acc = ofNat y := ⟨_, canon_eq_ofNat ha⟩
+  simp only [ofNat_val]
+  exact PowD.accLoop_refines P hP fuel x exp y
+
+theorem powD_refines (P : Params) (hP : P.ValidMul) (f : Form) (x : List Nat) (e : Nat) (hx : Canon x) :
+    PowD.powPrim P f x e = (powPrim f (val x) e).map ofNat := by
+  obtain ⟨n, rfl⟩ : ∃ n, x = ofNat n := ⟨_, canon_eq_ofNat hx⟩
+  simp only [ofNat_val]
+  exact PowD.powPrim_ofNat P hP f n e
+
+/-- digit-level `Pow<$T> for BigUint`, all four operand forms, every primitive exponent type:
+    the canonical digits of `x^e`; no multiplication panics, both loops terminate -/
+theorem powD_spec (P : Params) (hP : P.ValidMul) (f : Form) (x : List Nat) (e : Nat) (hx : Canon x) :
+    PowD.powPrim P f x e = .ok (ofNat (val x ^ e)) := by
+  rw [powD_refines P hP f x e hx, pow_forms_spec]; rfl
+
+theorem powD_zero_zero (P : Params) (f : Form) : PowD.powPrim P f [] 0 = .ok [1] := by
+  cases f <;> rfl
+
+theorem pow_bigD_refines (P : Params) (hP : P.ValidMul) (f : Form) (x e : List Nat) (hx : Canon x) (he : Canon e) :
+    PowD.powBig P f x e = (powBig f (val x) (val e)).map ofNat := by
+  obtain ⟨n, rfl⟩ : ∃ n, x = ofNat n := ⟨_, canon_eq_ofNat hx⟩
+  obtain ⟨k, rfl⟩ : ∃ k, e = ofNat k := ⟨_, canon_eq_ofNat he⟩
+  simp only [ofNat_val]
+  exact PowD.powBig_ofNat P hP f n k
+
+/-- digit-level BigUint exponent: capacity panic exactly when `x ≥ 2` and `e ≥ 2^128`, else `x^e`
+    (the `to_u64` overflow site of the model is not reached) -/
+theorem pow_bigD_spec (P : Params) (hP : P.ValidMul) (f : Form) (x e : List Nat) (hx : Canon x) (he : Canon e) :
+    PowD.powBig P f x e =
+      if 2 ≤ val x ∧ 2 ^ 128 ≤ val e then .error .capacity else .ok (ofNat (val x ^ val e)) := by
+  rw [pow_bigD_refines P hP f x e hx he, pow_big_spec]
+  split <;> rfl
+
+theorem bigint_powD_refines (P : Params) (hP : P.ValidMul) (f : Form) (x : BigInt) (e : Nat) (hx : x.Canon) :
+    PowD.bigintPow P f x e = (bigintPow f x.val e).map BigInt.ofInt := by
+  have r := PowD.bigintPow_ofInt P hP f x.val e
+  rwa [← bigint_canon_eq_ofInt hx] at r
+
+/-- digit-level BigInt `pow`, primitive exponents, all forms: the canonical BigInt of `x^e` -/
+theorem bigint_powD_spec (P : Params) (hP : P.ValidMul) (f : Form) (x : BigInt) (e : Nat) (hx : x.Canon) :
+    PowD.bigintPow P f x e = .ok (BigInt.ofInt (x.val ^ e)) := by
+  rw [bigint_powD_refines P hP f x e hx, bigint_pow_spec]; rfl
+
+/-- digit-level BigInt `pow` with a BigUint exponent (sign through `is_zero` / `is_odd` of the digits) -/
+theorem bigint_pow_bigD_spec (P : Params) (hP : P.ValidMul) (f : Form) (x : BigInt) (e : List Nat)
+    (hx : x.Canon) (he : Canon e) :
+    PowD.bigintPowBig P f x e =
+      if 2 ≤ x.val.natAbs ∧ 2 ^ 128 ≤ val e then .error .capacity else .ok (BigInt.ofInt (x.val ^ val e)) := by
+  obtain ⟨k, rfl⟩ : ∃ k, e = ofNat k := ⟨_, canon_eq_ofNat he⟩
+  have r := PowD.bigintPowBig_ofInt P hP f x.val k
+  rw [← bigint_canon_eq_ofInt hx] at r
+  rw [r, ofNat_val, bigint_pow_big_spec]
+  split <;> rfl
+
+/-- `powsign` on the digits of a BigUint exponent = `powsign` on its value -/
+theorem powsign_bigD_spec (s : Sign) (e : List Nat) (he : Canon e) :
+    PowD.powsignBig s e = powsign s (val e) := by
+  obtain ⟨k, rfl⟩ : ∃ k, e = ofNat k := ⟨_, canon_eq_ofNat he⟩
+  rw [ofNat_val]; exact PowD.powsignBig_eq s k
+
+/-- instantiations at the parameters regenerated from the source on every run -/
+theorem powD_spec_gen (f : Form) (x : List Nat) (e : Nat) (hx : Canon x) :
+    PowD.powPrim NB.Gen.P f x e = .ok (ofNat (val x ^ e)) := powD_spec NB.Gen.P gen_params_valid_mul f x e hx
+
+theorem bigint_powD_spec_gen (f : Form) (x : BigInt) (e : Nat) (hx : x.Canon) :
+    PowD.bigintPow NB.Gen.P f x e = .ok (BigInt.ofInt (x.val ^ e)) :=
+  bigint_powD_spec NB.Gen.P gen_params_valid_mul f x e hx
+
+/-- every operand the driver hands to the digit-level model is canonical (it normalises exactly like the
+    harness's constructors `BigUint::new` / `BigInt::from_biguint`), so the `…D_spec` theorems apply to
+    every evaluation of the driver's model column -/
+theorem drv_operand_canon (s : String) (a : List Nat) (h : NB.Drv.C12.pU s = some a) : Canon a := by
+  unfold NB.Drv.C12.pU at h
+  cases hp : NB.Wire.parseLimbs s with
+  | none => simp [hp] at h
+  | some l =>
+    simp only [hp, Option.bind_eq_bind, Option.bind_some] at h
+    split at h
+    · rename_i hall
+      simp only [Option.pure_def, Option.some.injEq] at h
+      subst h
+      exact normalize_canon (fun d hd => by simpa using List.all_eq_true.mp hall d hd)
+    · simp at h
+
+theorem drv_operand_canon_i (s : String) (x : BigInt) (h : NB.Drv.C12.pI s = some x) : x.Canon := by
+  unfold NB.Drv.C12.pI at h
+  cases hp : NB.Wire.parseBigInt s with
+  | none => simp [hp] at h
+  | some y =>
+    simp only [hp, Option.bind_eq_bind, Option.bind_some] at h
+    split at h
+    · rename_i hall
+      simp only [Option.pure_def, Option.some.injEq] at h
+      subst h
+      have hc : Canon (normalize y.mag) :=
+        normalize_canon (fun d hd => by simpa using List.all_eq_true.mp hall d hd)
+      unfold BigInt.fromBiguint
+      by_cases h1 : y.sign = .nosign
+      · simp only [h1, if_true]; exact ⟨canon_nil, by simp⟩
+      · simp only [h1, if_false]
+        by_cases h2 : normalize y.mag = []
+        · simp only [h2, if_true]; exact ⟨canon_nil, by simp⟩
+        · simp only [h2, if_false]; exact ⟨hc, by simp [h1, h2]⟩
+    · simp at h
+
+/-! ### non-vacuity of the digit-level layer: concrete evaluations at the generated parameters -/
+
+example : PowD.powPrim NB.Gen.P .vv [3] 13 = .ok [1594323] := by decide
+example : PowD.powPrim NB.Gen.P .rr [2] 64 = .ok [0, 1] := by decide
+example : PowD.powPrim NB.Gen.P .vv [0, 1] 3 = .ok [0, 0, 0, 1] := by decide
+example : PowD.bigintPow NB.Gen.P .rv ⟨.minus, [3]⟩ 5 = .ok ⟨.minus, [243]⟩ := by decide
+example : PowD.powBig NB.Gen.P .rr [2] [0, 0, 1] = .error .capacity := by decide
+example : PowD.bigintPowBig NB.Gen.P .vv ⟨.minus, [1]⟩ [1, 0, 1] = .ok ⟨.minus, [1]⟩ := by decide
 
 end NB
